@@ -5,7 +5,7 @@ from .. import rettags as RT
 from ..analysis import Branches, Origins, edge_dominates, fmt_terms, reach_avoiding
 from ..build import read_manifests
 from ..interp import DATA, Interp
-from ..serde_tables import VAR, casts_in, int_entry_ok, number_from_calls
+from ..serde_tables import VAR, casts_in, f64_mapping_ok, int_entry_ok, number_from_calls
 from ..tmatch import ANY, Agg, Call, Each, Or_, m, ms
 from .c14 import arm_regions, results
 
@@ -75,7 +75,7 @@ def check_visitor(ctx, lib):
             ok, why = int_entry_ok(b, ty, P2)
         row(nm, ok, f"Number(Number::from::<{ty}>(value)) — exact, no cast, no detour through a double")
     b, o, okt, tails = R("visit_f64")
-    ok = bool(b) and len(okt) == 1 and not tails and not casts_in(b) and ms(okt[0], Call("std::option::Option::<T>::map_or", Each(Call("serde_json::Number::from_f64", Each(P2))), Each(Agg(VAR + "::Null")), Each(("fnitem", VAR + "::Number"))))
+    ok = bool(b) and len(okt) == 1 and not tails and not casts_in(b) and f64_mapping_ok(okt[0], P2)
     row("visit_f64", ok, "Number(from_f64(value)), Null for a non-finite value")
     b, o, okt, tails = R("visit_string")
     row("visit_string", b and len(okt) == 1 and not tails and ms(okt[0], Agg(VAR + "::String", Each(P2))), "String(the owned string)")
